@@ -825,6 +825,22 @@ pub fn run(mode: Mode, ctx: &mut Ctx) -> Vec<Violation> {
         }));
     }
 
+    if mode == Mode::C06 {
+        // decoding and printing must also return when the embedding program has logging switched on (the log
+        // macros evaluate their arguments only then): short word strings exhaustively and mutants, at Trace level
+        crate::srvlab::install_logger(log::LevelFilter::Trace);
+        *crate::srvlab::LOGGER.keep.lock().unwrap() = false;
+        let total = exh_total(4);
+        out.extend(run_enum(ctx, "exh-words-logged", total, |i| RawCase { bytes: Hex(exh_string(i)) }, |ctx, c| check(mode, ctx, &c.bytes.0, "exh-logged")));
+        out.extend(run_prop(ctx, "mutants-logged", t.pick(40_000, 400_000), 1000, mut_case(64), |ctx, c| {
+            let base = c.base.to_ref().encode();
+            let x = apply_muts(&base, c.base.fields.len(), &c.muts);
+            check(mode, ctx, &x, "mut-logged")
+        }));
+        // the remaining sub-checks: every second worker process keeps logging on
+        log::set_max_level(if ctx.shard % 2 == 1 { log::LevelFilter::Trace } else { log::LevelFilter::Off });
+    }
+
     // messages whose encoding is exactly N bytes around 64 KiB (offsets near and beyond 16-bit range)
     {
         let cases = sized_cases(t == Tier::Thorough);
@@ -911,6 +927,12 @@ pub fn run(mode: Mode, ctx: &mut Ctx) -> Vec<Violation> {
 }
 
 pub fn replay(mode: Mode, ctx: &mut Ctx, sub: &str, case: &Value) -> Res {
+    if mode == Mode::C06 {
+        // a C06 case is replayed with logging on (a superset of what any worker process ran with)
+        crate::srvlab::install_logger(log::LevelFilter::Trace);
+        *crate::srvlab::LOGGER.keep.lock().unwrap() = false;
+    }
+    let sub = sub.strip_suffix("-logged").unwrap_or(sub);
     match sub {
         "sized-grid" => replay_case::<SizedCase, _>(ctx, case, |ctx, c| sized_check(mode, ctx, c)),
         "api" | "api-large" => replay_case::<ApiMsg, _>(ctx, case, |ctx, c| api_roundtrip(ctx, c)),
